@@ -82,7 +82,7 @@ def fails(r):
     if d is None:
         return None
     if d.get("panic"):
-        return "panic"
+        return "hang" if d["panic"].startswith("HANG:") else "panic"
     g = d.get("gen") or []
     if g and g[0]["load"].startswith("panic"):
         return "load-panic"
@@ -188,7 +188,7 @@ def run_gen(args, PROP, gen_kind, modes, rule, extra_assumptions, extra_coverage
         for k, v in d["net"].items():
             agg["net"][k] = agg["net"].get(k, 0) + v
         if d.get("panic"):
-            found.append((r["job"], None, None, P + "/panic", d["panic"][:2000]))
+            found.append((r["job"], None, None, P + ("/hang" if d["panic"].startswith("HANG:") else "/panic"), d["panic"][:2000]))
         elif not d["ok"] and "no test cases apply to current configuration" in (d.get("err") or ""):
             agg["rejected"] += 0  # an empty shard: none of its cases applies to this config slice
         elif not d["ok"]:
